@@ -202,3 +202,72 @@ func parseAV1Payload(p []byte) av1Payload {
 	r.ok = true
 	return r
 }
+
+// genAV1Aimed builds a temporal unit by feedback: a few small OBUs, whose packing is MEASURED
+// (measure returns the length of the last payload the payloader under test produces for a stream)
+// and then adjusted until the open packet has exactly F bytes left, F at a LEB128 boundary of the
+// element length field (1..4, 127..130, 16383..16386); then an OBU about as large as that space.
+// Aggregation decisions that depend on "how much room is left" are wrong at such points or nowhere.
+func genAV1Aimed(t *core.Tape, mtu int, measure func([]byte) int) ([]av1OBU, []byte, bool) {
+	var fit []int
+	for _, f := range []int{1, 2, 3, 4, 127, 128, 129, 130, 16383, 16384, 16385, 16386} {
+		if f+12 < mtu {
+			fit = append(fit, f)
+		}
+	}
+	if len(fit) == 0 {
+		return nil, nil, false
+	}
+	free := fit[t.Intn(len(fit))] + []int{0, 0, 1, 2, -1}[t.Intn(5)]
+	if free < 1 {
+		free = 1
+	}
+	k := 1 + t.Intn(4)
+	ext := t.Chance(1, 3)
+	tid, sid := byte(t.Intn(8)), byte(t.Intn(4))
+	obus := make([]av1OBU, k)
+	for i := range obus {
+		obus[i] = av1OBU{typ: byte([]int{6, 3, 4, 5, 1}[t.Intn(5)]), ext: ext, tid: tid, sid: sid, payload: t.Bytes(1 + t.Intn(6)), hasSize: true}
+	}
+	build := func(list []av1OBU) []byte {
+		var s []byte
+		for i := range list {
+			if list[i].hasSize {
+				s = append(s, list[i].withSize()...)
+			} else {
+				s = append(s, list[i].sizeless()...)
+			}
+		}
+		return s
+	}
+	last := &obus[k-1]
+	ok := false
+	for iter := 0; iter < 5; iter++ {
+		l := measure(build(obus))
+		if l <= 0 || l > mtu {
+			return nil, nil, false
+		}
+		delta := (mtu - free) - l
+		if delta == 0 {
+			ok = true
+			break
+		}
+		n := len(last.payload) + delta
+		if n < 0 || n > 70000 {
+			return nil, nil, false
+		}
+		last.payload = t.Bytes(n)
+	}
+	if !ok {
+		return nil, nil, false
+	}
+	size := free + []int{0, -1, -2, -3, 1, 2, 40, 300}[t.Intn(8)]
+	if size < 0 {
+		size = 0
+	}
+	obus = append(obus, av1OBU{typ: 6, ext: ext, tid: tid, sid: sid, payload: t.Bytes(size), hasSize: true})
+	if t.Chance(1, 2) {
+		obus = append(obus, av1OBU{typ: 6, ext: ext, tid: tid, sid: sid, payload: t.Bytes(1 + t.Intn(20)), hasSize: !t.Chance(1, 3)})
+	}
+	return obus, build(obus), true
+}
